@@ -19,7 +19,7 @@ from machines.memview import View, handlers as mem_handlers
 
 PID = "C05"
 RULE = (
-    "rank 1-2 (thorough: 3), every shape over {1,2,3,4,6} with <= 48 elements, element widths {1,4} (thorough 1,2,4,8); source and destination layouts "
+    "rank 1-2 (thorough: 3), every shape over {1,2,3,4,6} with <= 48 elements, element widths {1,4} bytes (thorough 1,2,4,8) plus the integer types i1 and i12 (thorough: i4 too; one resp. two bytes per element) on the first four plain layouts and every TSL pair; source and destination layouts "
     "independently from a menu: none, explicit row-major / column-major / padded strides, static offsets, dynamic offset, tiled-strided with every "
     "2-level factorisation of each dim and several stride orders, with gaps, with unit bounds; TSL-TSL pairs restricted to equal tile bounds (the "
     "documented precondition); dynamic outermost dims resolved at run time. distinct = distinct (types, byte image); non-trivial = layouts differ"
@@ -29,7 +29,7 @@ ASSUMPTIONS = [
     "a memref with a strided layout and dynamic offset is given a concrete run-time offset by the harness",
     "TSL-to-TSL copies have equal tile bounds (precondition stated in the pass)",
 ]
-BOUNDS = {"quick": dict(rank=2, max_elems=48, widths=[1, 4]), "thorough": dict(rank=3, max_elems=64, widths=[1, 2, 4, 8])}
+BOUNDS = {"quick": dict(rank=2, max_elems=48, widths=[1, 4], odd_widths=[101, 102]), "thorough": dict(rank=3, max_elems=64, widths=[1, 2, 4, 8], odd_widths=[101, 201, 102])}
 CASE_TIMEOUT = 60
 DIMS = [1, 2, 3, 4, 6]
 SRC_BASE, DST_BASE = 0x10000, 0x40000
@@ -177,6 +177,13 @@ def space(tier):
                         continue
                     cases.append(("tsl-plain", sh, w, i, c, 0))
                     cases.append(("plain-tsl", sh, w, i, c, 0))
+        # element types whose bit width is not a multiple of 8: plain x plain over the first layouts, every TSL pair
+        for wc in b["odd_widths"]:
+            for a in range(min(4, len(menu))):
+                for c in range(min(4, len(menu))):
+                    cases.append(("plain", sh, wc, a, c, 0))
+            for i in range(len(tsl_pairs(sh, tier))):
+                cases.append(("tsl", sh, wc, i, -1, 0))
         # dynamic TSL: outermost tile of dim 0 dynamic (bound and step '?') on both sides, for the pairs whose dim-0 outer stride is
         # the slowest-varying dense stride (so that the documented contiguity rule instantiates exactly that layout)
         pairs = tsl_pairs(sh, tier)
@@ -193,8 +200,13 @@ def space(tier):
     return cases
 
 
+# element width codes: the byte size is code % 100; codes >= 100 name integer types whose bit width is not a multiple of 8 (an i1 or
+# i4 element occupies one byte, an i12 element two, as in the memref lowering the run-time expects)
+ELT = {1: "i8", 2: "i16", 4: "i32", 8: "i64", 101: "i1", 201: "i4", 102: "i12"}
+
+
 def mtype(shape, w, layout_text, dyn0=False):
-    el = {1: "i8", 2: "i16", 4: "i32", 8: "i64"}[w]
+    el = ELT[w]
     dims = "x".join(("?" if (dyn0 and i == 0) else str(n)) for i, n in enumerate(shape))
     return f"memref<{dims}x{el}" + (f", {layout_text}" if layout_text else "") + ">"
 
@@ -231,11 +243,12 @@ def make_view(name, base, shape, w, lay):
 def evaluate(case, tier=None) -> CaseResult:
     tier = tier or _TIER[0]
     r = CaseResult()
-    kind, sh, w, i, j, dyn0 = case
+    kind, sh, wcode, i, j, dyn0 = case
+    w = wcode % 100
     src, dst = resolve(case, tier)
     if dyn0 and (src["kind"] == "strided" and src["strides"][0] != ref.shape([[(n, 1)] for n in sh]) and False):
         pass
-    st, dt = mtype(sh, w, src["text"], dyn0), mtype(sh, w, dst["text"], dyn0)
+    st, dt = mtype(sh, wcode, src["text"], dyn0), mtype(sh, wcode, dst["text"], dyn0)
     text = f"builtin.module {{\nfunc.func @f(%s : {st}, %d : {dt}) {{\n  \"memref.copy\"(%s, %d) : ({st}, {dt}) -> ()\n  func.return\n}}\n}}\n"
     key = f"{case!r}"
     case_j = dict(case=case, src=st, dst=dt)
